@@ -251,8 +251,12 @@ func examineSnaps(
 				obsoleteTests = append(obsoleteTests, testID)
 				hasDiffs = true
 
-				removeSnapshot(s)
-				continue
+				// only drop the obsolete snapshot when we are allowed to remove it,
+				// otherwise keep it so a rewrite for sorting doesn't lose it
+				if update {
+					removeSnapshot(s)
+					continue
+				}
 			}
 
 			for s.Scan() {
